@@ -113,7 +113,25 @@ ShmMsgs ==
   \cup {[m |-> OkResponse(e), ok |-> TRUE] : e \in {"", "wait", "conflict", X255}}
   \cup {[m |-> FreeSpaceResponse(n), ok |-> TRUE] : n \in Sizes}
   \cup {[m |-> FreeSpaceResponse(n), ok |-> FALSE] : n \in BadSizes}
-ShmCases == {Case("shm", x.m, x.ok) : x \in ShmMsgs}
+\* every text field of every shm message over a ladder of lengths (the other fields at ordinary values).  Up to 512
+\* characters the text must arrive; longer texts (a traceback in `error`, say) exceed what the single 1024-byte datagram read
+\* of the transport returns, so the encoder may refuse them - but must not shorten or otherwise alter them
+X256 == X255 \o "Y"
+X512 == X256 \o X255 \o "Z"
+X1000 == X512 \o X256 \o X64 \o X64 \o X64 \o "0123456789abcdef0123456789abcdef01234567"
+LenIn == {"", "k", X255, X256, X512}
+LenBeyond == {X512 \o "W", X1000, X1000 \o X1000 \o X1000 \o X1000}          \* 513, 1000, 4000 characters
+TextFieldMsgs(s) ==
+  {KeyReq(c, S(s)) : c \in {"GetRequest", "PurgeRequest", "DatasetStatusRequest"}}
+  \cup {GetResponse(s, "7", "rd-1", "", "m.f"), GetResponse("shm-1", "7", s, "", "m.f"), GetResponse("shm-1", "7", "rd-1", s, "m.f"),
+        GetResponse("shm-1", "7", "rd-1", "", s)}
+  \cup {AllocateRequest(S(s), "7", "m.f"), AllocateRequest(S("k"), "7", s)}
+  \cup {AllocateResponse(s, ""), AllocateResponse("shm-1", s)}
+  \cup {CloseCallback(S(s), "rd-1"), CloseCallback(S("k"), s)}
+  \cup {OkResponse(s)}
+ShmTextMsgs == {[m |-> x, ok |-> TRUE] : x \in UNION {TextFieldMsgs(s) : s \in LenIn}}
+          \cup {[m |-> x, ok |-> FALSE] : x \in UNION {TextFieldMsgs(s) : s \in LenBeyond}}
+ShmCases == {Case("shm", x.m, x.ok) : x \in ShmMsgs \cup ShmTextMsgs}
 
 \* ---------------------------------------------------------------- cascade.executor.msg
 W(h, w) == O(C \o "WorkerId", <<F("host", S(h)), F("worker", S(w))>>)
